@@ -331,10 +331,10 @@ impl EngineWorker {
         let (work_tx, mut work_rx) = mpsc::channel(32);
 
         #[cfg(xs_verif)]
-        crate::verif::expect_thread("engine");
+        let verif_ticket = crate::verif::expect_thread("engine");
         std::thread::spawn(move || {
             #[cfg(xs_verif)]
-            let _verif_scope = crate::verif::thread_scope("engine");
+            let _verif_scope = crate::verif::thread_scope("engine", verif_ticket);
             #[cfg(xs_verif)]
             let (engine, closure, mut work_rx) = (engine, closure, work_rx);
             let mut engine = engine;
